@@ -294,6 +294,11 @@ def addLT (a : Operand V) (b : Val V) : Except Err (Val V) :=
   | some o => .ok (.expr (((⟨0, []⟩ : Expr V).add a).add o))
   | none => .error (operandErr b)
 
+/-- `int + int`; anything involving a `float` is float arithmetic, outside the model -/
+def numAdd : Num → Num → Except Err (Val V)
+  | .int a, .int b => .ok (.num (.int (a + b)))
+  | _, _ => .error .unmodelled
+
 def pyAdd : Val V → Val V → Except Err (Val V)
   | .lit l, b => addLT (.lit l) b
   | .term t, b => addLT (.term t) b
@@ -306,6 +311,10 @@ def pyAdd : Val V → Val V → Except Err (Val V)
   | .str s, .term t => addLT (.term t) (.str s)
   | .num _, .expr _ => .error .typeError
   | .str _, .expr _ => .error .typeError
+  -- `int + int` (the first steps of `sum()` over leading integers); float arithmetic is outside the model
+  | .num a, .num b => numAdd a b
+  | .num _, .str _ => .error .typeError          -- `int + str` (e.g. `sum()` reaching a `str` first)
+  | .str _, .num _ => .error .typeError
   -- `Ineq` has no `__add__` / `__radd__`; `Literal/Term.__radd__(ineq)` is `Expr() + self + ineq`; `Expr` has no `__radd__`
   | .ineq _, .lit _ => .error .exception
   | .ineq _, .term _ => .error .exception
@@ -326,6 +335,9 @@ def pySub : Val V → Val V → Except Err (Val V)
   | .num _, .expr _ => .error .typeError
   | .num _, .lit _ => .error .typeError
   | .num _, .term _ => .error .typeError
+  | .num _, .str _ => .error .typeError
+  | .str _, .num _ => .error .typeError
+  | .str _, .str _ => .error .typeError
   -- only `Expr` defines `__sub__`, nothing defines `__rsub__`
   | .str _, .lit _ => .error .typeError
   | .str _, .term _ => .error .typeError
@@ -457,7 +469,4 @@ def Ineq.tostr (q : Ineq String) (clause : Option (List (Literal String))) : Str
   match clause with
   | some c => " + ".intercalate (c.map fun l => "1 " ++ l.tostr) ++ " >= 1"
   | none => q.lhs.tostr ++ " " ++ q.op.str ++ " " ++ toString q.rhs
-/-- `serdat` of `getrobdd`: the memo key of `constructrobdd` -/
-def serdat (d : List (Term String) × Int) : String := ",".intercalate (d.1.map Term.tostr) ++ ";" ++ toString d.2
-
 end FV.PB
